@@ -2,7 +2,7 @@
    instance of the arithmetic record, token I/O.  No Obj.magic, no Extract Constant. *)
 open Extracted
 
-let rec nat_of_int n = if n <= 0 then O else S (nat_of_int (n - 1))
+let nat_of_int n = let rec go acc k = if k <= 0 then acc else go (S acc) (k - 1) in go O n
 let int_of_nat n = let rec go acc = function O -> acc | S k -> go (acc + 1) k in go 0 n
 let rec pos_of_int n = if n <= 1 then XH else if n land 1 = 0 then XO (pos_of_int (n lsr 1)) else XI (pos_of_int (n lsr 1))
 let z_of_int n = if n = 0 then Z0 else if n > 0 then Zpos (pos_of_int n) else Zneg (pos_of_int (- n))
